@@ -116,7 +116,9 @@ def bus_bank_advance(arg: dict) -> list[dict]:
 
 
 def bus_advance_points(arg: dict) -> list[dict]:
-    bus = get_bus(arg["bus"])
+    bus, failed = _bus_or_failure(arg["bus"])
+    if failed:
+        return failed
     out = []
     for a, n in arg["points"]:
         rcls, rphys = "none", -1
@@ -147,8 +149,18 @@ def bus_advance_chain(arg: dict) -> list[dict]:
     return out
 
 
+def _bus_or_failure(spec):
+    """the bus for a declared configuration, or the observation that declaring it failed"""
+    try:
+        return get_bus(spec), None
+    except BaseException as e:  # noqa: BLE001 - declaring a valid mapping must work: a failure is an observation
+        return None, [{"t": "construct", "a": 0, "ok": False, "err": f"{type(e).__name__}: {e}"[:200]}]
+
+
 def bus_point_segments(arg: dict) -> list[dict]:
-    bus = get_bus(arg["bus"])
+    bus, failed = _bus_or_failure(arg["bus"])
+    if failed:
+        return failed
     out = []
     for a in arg["addrs"]:
         cls, p = _phys(bus, a)
